@@ -7,6 +7,7 @@ import FsVerif.Proofs.BufExtra
 import FsVerif.Proofs.Fleet
 import FsVerif.Proofs.SlotFifo
 import FsVerif.Proofs.BufFifo
+import FsVerif.Proofs.BufLifo
 import FsVerif.Proofs.CBeltFifo
 namespace FsVerif.Props.C06
 open FsVerif PosStore
@@ -83,8 +84,7 @@ example : (run (init { cap := none })
 retrievals own exactly the FIRST k ready entries (FIFO) / the TOP k (LIFO), k = number of granted retrievals; a new grant binds the
 entry right behind that block: `ready[k]` (FIFO: the oldest entry nobody holds) / `ready[len - 1 - k]` (LIFO: the most recent one).
 What the order of `ready` itself is - the order in which entries became available, a released entry going back next to the block - is
-proved below for the FIFO BufferStore, the store inside a Fleet and the two conveyor stores (the exit is a queue); for the LIFO buffer it is
-what the lock-step comparison and the C06 judge decide. -/
+proved below for the FIFO BufferStore, the LIFO BufferStore (a stack), the store inside a Fleet and the two conveyor stores. -/
 
 theorem buf_reserved_block {s : BufStore} (h : BufStore.ReachD s) : s.resItems.Perm (BufStore.resPart s) ∧ s.resEv.length = s.getRes.length :=
   ⟨(BufStore.reachD_binv h).bindItems, (BufStore.reachD_binv h).bindEv.length_eq⟩
@@ -157,6 +157,39 @@ theorem fleet_cancel_releases_to_front {s : FleetStore} (h : FleetStore.ReachD s
        (∃ t e, findTok s.b.getRes tid = some t ∧ s.b.resItems[s.b.resEv.idxOf t]? = some e ∧ rel = [e] ∧
                base = s.b.resItems.eraseIdx (s.b.resEv.idxOf t))) :=
   BufStore.cancelGet_queue (FleetStore.reachD_kt h).core.toPre (by rw [(FleetStore.reachD_kt h).cfgB]) tid
+
+/-! ### LIFO BufferStore: the unreserved part of `ready_items` is a stack (`freeL` = the ready entries below the reserved block, bottom
+first).  A grant takes its TOP — the most recently available unreserved item —, an entry that becomes available is pushed on top, a `get`
+does not touch it, cancelling a granted retrieval pushes the released entry back on top (it is served next, ahead of every
+never-reserved entry). -/
+
+theorem buf_lifo_grant_takes_top {s : BufStore} (h : BufStore.ReachD s) (hm : s.cfg.mode = .lifo) :
+    ∃ g, BufStore.freeL s = BufStore.freeL s.trigGet ++ g ∧ s.trigGet.resItems = s.resItems ++ g ∧ g.length ≤ 1 :=
+  BufStore.trigGet_stack (BufStore.reachD_binv h).bindEv.length_eq hm
+
+theorem buf_lifo_available_pushed_on_top {s : BufStore} (h : BufStore.ReachD s) (hm : s.cfg.mode = .lifo) (e : BEntry) :
+    ∃ new g, BufStore.freeL s ++ new = BufStore.freeL (s.move e) ++ g ∧ (s.move e).resItems = s.resItems ++ g ∧ new.length ≤ 1 ∧ g.length ≤ 1 :=
+  BufStore.move_stack (BufStore.reachD_binv h).toPre hm e
+
+theorem buf_lifo_get_keeps_free {s : BufStore} (h : BufStore.ReachD s) (hm : s.cfg.mode = .lifo) (p tid : Nat) :
+    BufStore.freeL (s.get p tid).1 = BufStore.freeL s :=
+  BufStore.get_stack (BufStore.reachD_binv h).toPre hm p tid
+
+theorem buf_lifo_cancel_releases_to_top {s : BufStore} (h : BufStore.ReachD s) (hm : s.cfg.mode = .lifo) (tid : Nat) :
+    ∃ rel g base, BufStore.freeL s ++ rel = BufStore.freeL (s.cancelGet tid).1 ++ g ∧ (s.cancelGet tid).1.resItems = base ++ g ∧ g.length ≤ 1 ∧
+      ((rel = [] ∧ base = s.resItems) ∨
+       (∃ t e, findTok s.getRes tid = some t ∧ s.resItems[s.resEv.idxOf t]? = some e ∧ rel = [e] ∧
+               base = s.resItems.eraseIdx (s.resEv.idxOf t))) :=
+  BufStore.cancelGet_stack (BufStore.reachD_binv h).toPre hm tid
+
+/-- non-vacuity: items 1, 2, 3 ready in a LIFO buffer (delay 0): the first grant binds 3, the second 2; cancelling the first puts 3 back
+    on top of the free part [1], a new request gets 3 again -/
+example : ((BufStore.run (BufStore.init { cap := none, mode := .lifo })
+      [.reservePut 0, .reservePut 0, .reservePut 0, .put 0 0 ⟨1, 0⟩ 0, .put 0 1 ⟨2, 0⟩ 0, .put 0 2 ⟨3, 0⟩ 0, .settle,
+       .reserveGet 1, .reserveGet 1, .cancelGet 3]).ready.map (·.item.id),
+           (BufStore.freeL (BufStore.run (BufStore.init { cap := none, mode := .lifo })
+      [.reservePut 0, .reservePut 0, .reservePut 0, .put 0 0 ⟨1, 0⟩ 0, .put 0 1 ⟨2, 0⟩ 0, .put 0 2 ⟨3, 0⟩ 0, .settle,
+       .reserveGet 1, .reserveGet 1, .cancelGet 3])).map (·.item.id)) = ([1, 3, 2], [1, 3]) := by decide +kernel
 
 /-! ### both conveyor stores: the exit is a FIFO queue, cancellation included.
 `free s` = the items waiting at the exit that no granted retrieval holds, in `ready_items` order.  In every reachable state
